@@ -277,8 +277,20 @@ pub fn gen_state(rng: &mut Rng, w: u16, variant: u32) -> VmCase {
                 });
             }
         }
-        if vec != 0x27 {
-            minimal = rng.chance(3, 4);
+        minimal = rng.chance(3, 4);
+        if vec == 0x27 {
+            // REG: the normal-mode table has a character column; cover its classes
+            minimal = rng.chance(1, 2);
+            for r in regs.iter_mut() {
+                if rng.chance(2, 3) {
+                    *r = match rng.below(4) {
+                        0 => rng.below(0x82) as u16,
+                        1 => *rng.pick(&[0x7eu16, 0x7f, 0x80, 0x20, 0x21, 0x1b, 0x1f, 0x0d, 0x00, 0xff, 0x100, 0x8000, 0x7fff, 0xffff, 0xfffd]),
+                        2 => 0x20 + rng.below(0x5f) as u16,
+                        _ => rng.u16(),
+                    };
+                }
+            }
         }
     }
     let stack = if variant == 0 { true } else { rng.chance(2, 3) };
@@ -328,6 +340,23 @@ pub fn corpus() -> Vec<VmCase> {
         let mut c = base(0xF021);
         c.regs[0] = 0x001b;
         c.minimal = minimal;
+        v.push(c);
+    }
+    // REG in the normal output mode: every value of the character column (0 ..= 0x88), the
+    // extremes of the signed / unsigned columns (swapped before the fix of the column order)
+    for g in 0..18u16 {
+        let mut c = base(0xF027);
+        c.minimal = false;
+        for k in 0..8u16 {
+            c.regs[k as usize] = g * 8 + k;
+        }
+        v.push(c);
+    }
+    for regs in [[0x8000u16, 0x7FFF, 0xFFFF, 0xFFFD, 0x0100, 0x00FF, 0x270F, 0xD8F1], [1, 9, 10, 99, 100, 999, 1000, 9999]] {
+        let mut c = base(0xF027);
+        c.minimal = false;
+        c.regs = regs;
+        c.cc = 2;
         v.push(c);
     }
     // GETC / IN: ASCII, non-ASCII, end of input
